@@ -30,3 +30,6 @@ GENERATORS.append(("T3 numpy tables", t3_numpy.generate))
 
 from . import t5_errors  # noqa: E402  T5: pint exception classes (errors.py + subclasses) -> Gen/ErrorsTable.v
 GENERATORS.append(("T5 exception classes", t5_errors.generate))
+
+from . import t7_format  # noqa: E402  T7: pint/delegates/formatter/*.py -> Gen/FormatParams.v
+GENERATORS.append(("T7 format parameters", t7_format.generate))
